@@ -89,7 +89,8 @@ Definition first_word (t : tok) : tok := take_word (drop_ws t).
 (* parse_value<std::string>: iss >> value (value keeps the default when nothing can be extracted) *)
 Definition string_value (argv : list tok) (name : tok) (dflt : tok) : tok :=
   match typed_lookup argv name with
-  | VAt _ t => match first_word t with [] => dflt | w => w end
+  | VAt _ t => if is_dash t then dflt                      (* a string option never takes the next option as value *)
+               else match first_word t with [] => dflt | w => w end
   | _ => dflt
   end.
 Definition bool_value (argv : list tok) (name : tok) (dflt : bool) : bool :=
@@ -115,17 +116,32 @@ Definition atom_holds (a : gatom) (n : nat) : bool :=
 (* conjunction of comparisons of cmd.num_args(opt_parms) with constants *)
 Definition guard_holds (g : list gatom) (n : nat) : bool := forallb (fun a => atom_holds a n) g.
 
-Record use : Type := { u_k : nat; u_guard : list gatom; u_sink : tok; u_argpos : nat }.
+(* what a parameter is: as documented by the help text (from its wording) / as used by the code (from the type it is
+   handed to: Geometry constructor argument 0 or 1, Matrix, SymMatrix, SparseMatrix, Sensors, Mesh, save, a string) *)
+Inductive pkind : Type := PGeom | PCond | PMatrix | PSym | PSparse | PSensors | PMesh | PName | POut | PAny.
+Definition pkind_code (p : pkind) : nat :=
+  match p with PGeom => 0 | PCond => 1 | PMatrix => 2 | PSym => 3 | PSparse => 4 | PSensors => 5 | PMesh => 6 | PName => 7 | POut => 8 | PAny => 9 end%nat.
+Definition compat (doc used : pkind) : bool :=
+  (pkind_code doc =? pkind_code used)%nat || ((pkind_code doc =? 9)%nat && (pkind_code used =? 7)%nat).
+
+Record use : Type := { u_k : nat; u_guard : list gatom; u_sink : tok; u_argpos : nat; u_kind : pkind }.
 Record block : Type := {
   b_aliases : list tok;
   b_multi : bool;              (* brace-list overload (optional [names] counted) vs single-name overload *)
   b_parms : list tok;
   b_variant : list tok;     (* aliases that select the variant inside the block (via opt_parms[0]) *)
+  b_doc : list (pkind * bool); (* parameters in the order the help text lists them; true = optional *)
   b_uses : list use }.
 Inductive kind : Type := KString | KDouble | KBool.
 Record decl : Type := { d_var : tok; d_name : tok; d_kind : kind; d_default : tok }.
-Inductive cond : Type := CArgcLt (k : nat) | CHelp | CEmpty (var : tok).
+Inductive cond : Type :=
+  | CArgcLt (k : nat) | CHelp | CEmpty (var : tok)
+  | CManyOptions (ignored : list tok)     (* cmd.num_options(ignored)>1 *)
+  | CUnknown.                             (* cmd.unknown_argument()!=nullptr *)
 Record precheck : Type := { pc_conds : list cond; pc_calls_help : bool; pc_ret : Z }.
+(* the conversion of om_matrix_convert: which option variable names the input file, the output file, the explicit
+   input / output format, and the name whose suffix selects the output format when none is given *)
+Record conv : Type := { cv_in_file : tok; cv_out_file : tok; cv_in_fmt : tok; cv_out_fmt : tok; cv_suffix : tok }.
 Record tool : Type := {
   t_name : tok;
   t_decls : list decl;
@@ -134,7 +150,8 @@ Record tool : Type := {
   t_argv_uses : list (nat * tok);       (* argv[k] read after the early returns *)
   t_blocks : list block;
   t_unknown_exit : option Z;            (* if (num_options==0) exit(c) *)
-  t_documented : list tok }.            (* option names introduced by the help text *)
+  t_documented : list tok;              (* option names introduced by the help text *)
+  t_conv : option conv }.               (* om_matrix_convert: option variables feeding the conversion *)
 
 Definition nmand (b : block) : nat :=
   if b_multi b then mandatory (b_parms b) else List.length (b_parms b).
@@ -149,11 +166,38 @@ Definition var_empty (t : tool) (argv : list tok) (v : tok) : bool :=
   | Some d => match decl_string argv d with [] => true | _ => false end
   | None => false
   end.
+(* CommandLine::num_options: arguments after argv[0] that start with '-' and are not in the ignored list *)
+Definition counted_option (ign : list tok) (a : tok) : bool := is_dash a && negb (existsb (tok_eqb a) ign).
+Definition num_options (argv : list tok) (ign : list tok) : nat :=
+  List.length (filter (counted_option ign) (tl argv)).
+
+(* CommandLine::used after the declarations: argv[0], the first -h / --help, the first occurrence of every declared
+   option name and the value taken after it (none for flags; for strings only when it does not start with '-') *)
+Definition value_taken (d : decl) (argv : list tok) (j : nat) : bool :=
+  match d_kind d, nth_error argv (S j) with
+  | KBool, _ => false
+  | _, None => false
+  | KString, Some v => negb (is_dash v)
+  | KDouble, Some _ => true
+  end.
+Definition marked_by (argv : list tok) (name : tok) (i : nat) : bool :=
+  match find_argument argv name with Some j => (i =? j)%nat | None => false end.
+Definition marked (t : tool) (argv : list tok) (i : nat) : bool :=
+  (i =? 0)%nat || marked_by argv tok_h i || marked_by argv tok_help i
+  || existsb (fun d => match find_argument argv (d_name d) with
+                       | Some j => (i =? j)%nat || (value_taken d argv j && (i =? S j)%nat)
+                       | None => false
+                       end) (t_decls t).
+Definition unknown_argument (t : tool) (argv : list tok) : option nat :=
+  find (fun i => negb (marked t argv i)) (seq 1 (List.length argv - 1)).
+
 Definition cond_holds (t : tool) (argv : list tok) (c : cond) : bool :=
   match c with
   | CArgcLt k => (List.length argv <? k)%nat
   | CHelp => help_mode argv
   | CEmpty v => var_empty t argv v
+  | CManyOptions ign => (1 <? num_options argv ign)%nat
+  | CUnknown => match unknown_argument t argv with Some _ => true | None => false end
   end.
 Definition pc_code (t : tool) (p : precheck) : Z :=
   if pc_calls_help p then match t_help_exit t with Some c => c | None => pc_ret p end else pc_ret p.
@@ -284,3 +328,65 @@ Definition covers (b : block) (n : nat) : bool :=
   forallb (fun k => existsb (Nat.eqb k) (reads_at b n)) (seq 1 n).
 Definition params_used_ok (b : block) : bool := covers b (nmand b) && covers b (List.length (b_parms b)).
 Definition tool_params_used_ok (t : tool) : bool := forallb params_used_ok (t_blocks t).
+
+(* tools with option blocks count the options before any block runs; no alias is in the ignored list, all start with '-' *)
+Definition many_check (t : tool) (c : cond) : bool :=
+  match c with
+  | CManyOptions ign => forallb (fun a => counted_option ign a) (all_aliases t)
+  | _ => false
+  end.
+Definition option_count_ok (t : tool) : bool :=
+  match t_blocks t with
+  | [] => true
+  | _ => existsb (fun p => existsb (many_check t) (pc_conds p)) (t_pre t)
+  end.
+(* tools without option blocks that declare typed options reject unknown arguments *)
+Definition is_unknown_check (c : cond) : bool := match c with CUnknown => true | _ => false end.
+Definition has_unknown_check (t : tool) : bool := existsb (fun p => existsb is_unknown_check (pc_conds p)) (t_pre t).
+Definition unknown_check_ok (t : tool) : bool :=
+  match t_blocks t, t_decls t with
+  | [], _ :: _ => has_unknown_check t
+  | _, _ => true
+  end.
+
+(* documented order = order read: on a line with all documented parameters, and on a line with the mandatory ones
+   only, the k-th parameter is handed to something of the kind the help text announces at that place *)
+Definition doc_full (b : block) : list pkind := map fst (b_doc b).
+Definition doc_mand (b : block) : list pkind := map fst (filter (fun x => negb (snd x)) (b_doc b)).
+Definition use_follows_doc (docs : list pkind) (u : use) : bool :=
+  if guard_holds (u_guard u) (List.length docs) && (1 <=? u_k u)%nat
+  then match nth_error docs (u_k u - 1) with Some d => compat d (u_kind u) | None => false end
+  else true.
+Definition line_ok (b : block) (docs : list pkind) : bool := forallb (use_follows_doc docs) (b_uses b).
+Definition doc_order_ok (b : block) : bool :=
+  line_ok b (doc_full b) && line_ok b (doc_mand b)
+  && (List.length (doc_mand b) =? nmand b)%nat && (List.length (b_parms b) <=? List.length (doc_full b))%nat.
+Definition tool_doc_order_ok (t : tool) : bool := forallb doc_order_ok (t_blocks t).
+
+(* ---------------------------------------------------------------- formats used by om_matrix_convert *)
+Definition var_value (t : tool) (argv : list tok) (v : tok) : tok :=
+  match find (fun d => tok_eqb (d_var d) v) (t_decls t) with Some d => decl_string argv d | None => [] end.
+(* characters after the last '.' (None: no dot) *)
+Fixpoint suffix_from (name : tok) (acc : option tok) : option tok :=
+  match name with
+  | [] => acc
+  | c :: r => if c =? 46 then suffix_from r (Some []) else suffix_from r (match acc with Some a => Some (a ++ [c]) | None => None end)
+  end.
+Definition format_of_suffix (table : list (tok * tok)) (name : tok) : tok :=
+  match suffix_from name None with
+  | None => []
+  | Some sfx => match find (fun p => tok_eqb (fst p) sfx) table with Some p => snd p | None => [] end
+  end.
+Definition tok_auto : tok := [97; 117; 116; 111].      (* "auto": no format given, the reader identifies the content *)
+Record conv_plan : Type := { cp_in : tok; cp_in_fmt : tok; cp_out : tok; cp_out_fmt : tok }.
+Definition conv_plan_of (table : list (tok * tok)) (t : tool) (argv : list tok) : option conv_plan :=
+  match t_conv t with
+  | None => None
+  | Some cv =>
+      let inf := var_value t argv (cv_in_fmt cv) in
+      let outf := var_value t argv (cv_out_fmt cv) in
+      Some {| cp_in := var_value t argv (cv_in_file cv);
+              cp_in_fmt := match inf with [] => tok_auto | _ => inf end;
+              cp_out := var_value t argv (cv_out_file cv);
+              cp_out_fmt := match outf with [] => format_of_suffix table (var_value t argv (cv_suffix cv)) | _ => outf end |}
+  end.
